@@ -367,6 +367,11 @@ pub async fn run_case(seed: u64, i: u64, verbose: bool) -> CaseOut {
                 b[3] = rng.random_range(0..4);
             }
             (b, "random")
+        } else if kind < 23 && !pool.is_empty() {
+            // a short prefix of a valid datagram: cut inside the magic number, the version, the type, the first length field
+            let k = rng.random_range(0..pool.len());
+            let l = rng.random_range(0..=14usize).min(pool[k].len());
+            (pool[k][..l].to_vec(), "prefix")
         } else if kind < 45 && !pool.is_empty() {
             {
             let k = rng.random_range(0..pool.len());
